@@ -1,13 +1,141 @@
 """C17 - tunnel domain validation and query-name matching follow label boundaries exactly
 (Engine B, unit/domain.c linked against the tree's common.o under ASan/UBSan)."""
+import random
 import re
 
-from vflib import core, unitrun
+from vflib import core, simrun, unitrun
 
 QUICK_MATCHLEN = 8   # the whole enumeration costs ~5 s on 16 cores, so the quick tier does it too
 THOROUGH_MATCHLEN = 8
 QUICK_RANDOM = 100000
 THOROUGH_RANDOM = 1000000
+
+
+# ---------------------------------------------------------------------------
+# Engine A: the dispatch consequence in the real server - names inside the domain are tunnel traffic,
+# names outside are never handled as tunnel traffic (with -b: forwarded; without: ignored)
+
+def ref_inside(labels, dom):
+    """Reference matcher on label lists (case-insensitive); dom may start with b'*'."""
+    d = [x.lower() for x in dom]
+    n = [x.lower() for x in labels]
+    if d and d[0] == b"*":
+        rest = d[1:]
+        if len(n) < len(rest) + 1 or n[len(n) - len(rest):] != rest:
+            return False
+        w = n[len(n) - len(rest) - 1]
+        return len(w) > 0 and b"*" not in w
+    return len(n) >= len(d) and n[len(n) - len(d):] == d
+
+
+def scn_dispatch(params):
+    from simnet import kernel, proto, scen
+    rng = random.Random(params["rseed"])
+    out = {"violations": [], "nontrivial": [], "stats": {"dispatch_queries": 0, "dispatch_inside": 0, "dispatch_outside": 0,
+                                                        "dispatch_ns_answers": 0, "dispatch_forwarded": 0}, "evaluations": 0, "sets": {}}
+    sim = scen.Sim("c17d-%d" % params["idx"], params["seed"])
+    try:
+        k = sim.k
+        dom = params["domain"]
+        extra = ["-b", "5353"] if params["bind"] else []
+        srv = sim.server(domain=dom, extra=extra)
+        if not srv.alive():
+            out["inconclusive"] = "server-died-at-start"
+            return out
+
+        class Sink(kernel.Actor):
+            def __init__(self, ip):
+                kernel.Actor.__init__(self, ip)
+                self.got = []
+
+            def on_datagram(self, src, dst, data):
+                self.got.append((src, dst, data))
+
+        res_ = Sink("127.0.0.1")
+        cli = Sink("10.77.1.1")
+        k.add_actor(res_.ip, res_)
+        k.add_actor(cli.ip, cli)
+        dl = proto.labels_from_dotted(dom.encode())
+        base = dl[1:] if dl[0] == b"*" else dl
+        wit = {"seed": params["seed"], "domain": dom, "bind": params["bind"]}
+
+        def rcase(l):
+            return bytes((c ^ 0x20) if (65 <= c <= 90 or 97 <= c <= 122) and rng.random() < 0.5 else c for c in l)
+
+        def some_label():
+            return bytes(rng.choice(b"abcxyz019-") for _ in range(rng.randint(1, 12)))
+
+        for i in range(params["n"]):
+            kind = rng.randrange(10)
+            if kind == 0:
+                labels = list(base)                                   # the (literal part of the) domain itself
+            elif kind == 1:
+                labels = [some_label()] + list(base)                  # one label in front
+            elif kind == 2:
+                labels = [some_label(), some_label()] + list(base)
+            elif kind == 3:
+                labels = [some_label() + base[0]] + list(base[1:])    # ends with the domain text, but not at a label boundary
+            elif kind == 4:
+                labels = list(base[1:]) or [b"com"]                   # the parent zone
+            elif kind == 5:
+                labels = list(base) + [some_label()]                  # domain in the middle
+            elif kind == 6:
+                labels = [rng.choice([b"*", b"a*", b"*a", b"a*b"])] + list(base)   # star in the label a wildcard would match
+            elif kind == 7:
+                labels = [some_label(), some_label()]                 # unrelated
+            elif kind == 8:
+                lb = bytearray(base[0])
+                lb[rng.randrange(len(lb))] = ord("q")
+                labels = [some_label(), bytes(lb)] + list(base[1:])   # one character of the domain changed
+            else:
+                labels = [rng.choice([b"ns", b"www", b"NS", b"vaaaaaaa"])] + list(base)
+            labels = [rcase(l) for l in labels]
+            if sum(len(l) + 1 for l in labels) > 250:
+                continue
+            qt = rng.choice([proto.T_NS, proto.T_NS, proto.T_A, proto.T_NULL, proto.T_TXT])
+            inside = ref_inside(labels, dl)
+            qid = rng.randint(1, 65535)
+            n_res, n_cli = len(res_.got), len(cli.got)
+            cli.send(40000 + i % 7, (scen.SERVER_IP, 53), proto.build_query(qid, labels, qt))
+            k.run(k.now + 30000)
+            out["stats"]["dispatch_queries"] += 1
+            out["stats"]["dispatch_inside" if inside else "dispatch_outside"] += 1
+            fwd = res_.got[n_res:]
+            ans = cli.got[n_cli:]
+            name = b".".join(labels).decode("latin1")
+            if params["bind"]:
+                out["stats"]["dispatch_forwarded"] += len(fwd)
+                if inside and fwd:
+                    out["violations"].append(("C17:dispatch:inside-name-forwarded", "query for %r (type %d), which is inside the tunnel domain %s, was forwarded to the other DNS server"
+                                              % (name, qt, dom), wit))
+                if not inside and len(fwd) != 1:
+                    out["violations"].append(("C17:dispatch:outside-name-not-forwarded", "query for %r (type %d), outside %s, was not forwarded (%d datagrams)"
+                                              % (name, qt, dom, len(fwd)), wit))
+            if not inside and ans:
+                out["violations"].append(("C17:dispatch:outside-name-handled", "query for %r (type %d), outside the tunnel domain %s, was answered by the tunnel server"
+                                          % (name, qt, dom), wit))
+            if inside and qt == proto.T_NS:
+                ok = False
+                for (_s, _d, data) in ans:
+                    try:
+                        m = proto.parse_msg(data)
+                        ok = ok or (m.qr and m.id == qid and len(m.an) == 1 and m.an[0][1] == proto.T_NS)
+                    except proto.ParseError:
+                        pass
+                out["stats"]["dispatch_ns_answers"] += int(ok)
+                if not ok:
+                    out["violations"].append(("C17:dispatch:inside-ns-query-not-answered", "NS query for %r, inside the tunnel domain %s, got no NS answer"
+                                              % (name, dom), wit))
+            out["nontrivial"].append(repr(("dispatch", kind, inside, qt == proto.T_NS, params["bind"], dl[0] == b"*")))
+        out["evaluations"] = out["stats"]["dispatch_queries"]
+        h = sim.health(srv)
+        if h != "running":
+            out["inconclusive"] = "server-" + h.split(":")[0]
+        if params["idx"] < 2:
+            out["sample"] = {"engine": "A dispatch", "domain": dom, "bind": params["bind"], "stats": dict(out["stats"])}
+        return out
+    finally:
+        sim.close()
 
 
 def run(ctx):
@@ -45,7 +173,7 @@ def run(ctx):
         "query_datalen is only specified for domains accepted by the validator (with wildcard allowed); "
         "other domains are not passed to it",
         "ASan red zones around exact-size heap copies detect reads before/after the name and the domain",
-        "the dispatch consequence in iodined.c (tunnel handling vs forwarding) is not observed by this unit check",
+        "dispatch (Engine A part): a query is 'handled as tunnel traffic' when the server answers it itself; with -b a name outside the domain must be forwarded exactly once and a name inside never",
     ]
     res.min_nontrivial = 12
     matchlen = ctx.pick(QUICK_MATCHLEN, THOROUGH_MATCHLEN)
@@ -65,6 +193,24 @@ def run(ctx):
         drv = b.unit("domain", ["domain.c"], objs=["common"], libs=())
         sh = ctx.jobs
         unitrun.run_sharded(res, "C17", drv, sh, lambda i: [i, sh, seed, matchlen, nrandom], jobs=ctx.jobs)
+        # Engine A: dispatch in the real server
+        rng = random.Random(ctx.seed * 1709 + 17)
+        doms = ["t.example.com", "*.example.com", "T.Example.COM", "tun.ab.example.org", "*.a-b.example.org", "x.yy"]
+        plist = [{"idx": i, "seed": ctx.seed * 100000 + i, "rseed": rng.getrandbits(32), "domain": doms[i % len(doms)],
+                  "bind": i % 2 == 0, "n": rng.randint(60, 120)} for i in range(ctx.pick(48, 600))]
+        if ctx.replay and "params" in (ctx.replay.get("witness") or {}):
+            plist = [ctx.replay["witness"]["params"]]
+        dres = core.Result()
+        simrun.run_scenarios(dres, b, scn_dispatch, plist, jobs=ctx.jobs)
+        res.violations += dres.violations
+        res.harness_errors += dres.harness_errors
+        res.evaluations += dres.evaluations
+        res.inconclusive += dres.inconclusive
+        for sig in dres.nontrivial:
+            res.nt(sig)
+        for kk, vv in dres.extra.items():
+            res.extra[kk] = vv
+        res.samples += dres.samples[:1]
     res.exhaustive = bool(matchlen >= 8)
     res.extra["exhaustive_subspace"] = (
         "validation: all strings of length 0..7 over {a,A,b,-,.,*,0} x allow_wildcard {0,1}; "
